@@ -322,14 +322,9 @@ func (e *Env) evalBin(n *Node, want string) Term {
 	}
 	switch op {
 	case "==":
-		if a.Sort == SFP32 || a.Sort == SFP64 {
-			return Term{S: fmt.Sprintf("(fp.eq %s %s)", a.S, b.S), Sort: SBool}
-		}
+		// structural equality also on floats (use feq() for IEEE equality)
 		return Term{S: fmt.Sprintf("(= %s %s)", a.S, b.S), Sort: SBool}
 	case "!=":
-		if a.Sort == SFP32 || a.Sort == SFP64 {
-			return Term{S: fmt.Sprintf("(not (fp.eq %s %s))", a.S, b.S), Sort: SBool}
-		}
 		return Term{S: fmt.Sprintf("(not (= %s %s))", a.S, b.S), Sort: SBool}
 	}
 	if a.Sort == SInt {
